@@ -2,10 +2,10 @@
 # tools/replay_seeds.sh : every seeded change against the *committed regression inputs* only (no generation): for each
 # seed a scratch worktree with the change, then the replay tier of the checks that own it. One line per seed.
 cd /verif
-for d in seeded/C*-*; do
+for d in seeded/C*-[${SUFFIXES:-a-z}]; do
   s=$(basename "$d"); p=${s%%-*}
   extra=""
-  case "$s" in C05-a|C06-a|C05-b) extra="C05 C06";; C05-f) extra="C06";; C07-a|C10-a|C10-g) extra="C04";; C04-c) extra="C08";; C08-e|C09-e|C09-f) extra="C08 C09";; C06-g) extra="C13";; C07-h|C15-h) extra="C14";; esac
+  case "$s" in C05-a|C06-a|C05-b) extra="C05 C06";; C05-f) extra="C06";; C07-a|C10-a|C10-g) extra="C04";; C04-c) extra="C08";; C08-e|C09-e|C09-f) extra="C08 C09";; C06-g) extra="C13";; C07-h|C15-h) extra="C14";; C08-i|C10-j) extra="C04";; C09-i) extra="C08";; esac
   wt="/tmp/sc/rs.$s"
   git -C /repo worktree add -q --detach "$wt" HEAD || continue
   res="MISSED"
